@@ -1,13 +1,80 @@
-/- line-protocol handlers of the "sep" family (stub: filled in by the family's model) -/
+/- line-protocol handlers of the "sep" family: d-separation, CI enumeration (Y0.Model.Sep),
+   sigma-separation (Y0.Model.Sigma) -/
 import Y0.Model.Graph
-import Y0.Model.Expr
+import Y0.Model.Sep
+import Y0.Model.Sigma
 import Y0.Driver.Graph
 
 namespace Y0.Driver
 open Y0 Sexp
 
-def handleSep (op : String) (args : List Sexp) : Option Sexp :=
+def boolSexp (b : Bool) : Sexp := .atom (if b then "true" else "false")
+
+def asBool? : Sexp → Option Bool
+  | .atom "true" => some true
+  | .atom "false" => some false
+  | _ => none
+
+/-- `none` or a number -/
+def asOptNat? : Sexp → Option (Option Nat)
+  | .atom "none" => some none
+  | s => (asNat? s).map some
+
+def judgementToSexp (j : Judgement) : Sexp :=
+  tagged "j" [boolSexp j.separated, nat j.left, nat j.right, ofNats j.conditions]
+
+def judgementsToSexp (js : List Judgement) : Sexp := .list (js.map judgementToSexp)
+
+def asListOfNats? : Sexp → Option (List (List Nat))
+  | .list xs => xs.mapM asNats?
+  | _ => none
+
+/-- verdicts for every ordered pair of distinct nodes and every conditioning set among the other nodes, in the
+order `a ∈ V, b ∈ V, C ∈ powerset (V ∖ {a, b})` (V sorted): one character each, `t`/`f`/`e` -/
+def sepTable (f : Nat → Nat → List Nat → Except Err Bool) (V : List Nat) : Sexp :=
+  let cells := V.flatMap fun a => V.flatMap fun b =>
+    if a = b then [] else
+      (powerset (V.filter (fun v => v ≠ a ∧ v ≠ b)) 0 none).map fun c =>
+        match f a b c with
+        | .ok true => 't'
+        | .ok false => 'f'
+        | .error _ => 'e'
+  .atom (String.ofList ('#' :: cells))
+
+def handleSep (op : String) (args : List Sexp) : Option Sexp := do
   match op, args with
+  | "are_d_separated", [g, a, b, c] =>
+      pure (exceptToSexp judgementToSexp ((← parseGraph g).areDSeparated (← asNat? a) (← asNat? b) (← asNats? c)))
+  | "evidence", [g, a, b, c] =>
+      pure (exceptToSexp graphToSexp ((← parseGraph g).dSepEvidence (← asNat? a) (← asNat? b) (← asNats? c)))
+  | "is_canonical", [s, l, r, c] =>
+      pure (tagged "ok" [boolSexp (Judgement.isCanonical ⟨← asBool? s, ← asNat? l, ← asNat? r, ← asNats? c⟩)])
+  | "create", [l, r, c] =>
+      pure (tagged "ok" [judgementToSexp (Judgement.create (← asNat? l) (← asNat? r) (← asNats? c) true)])
+  | "powerset", [s, start, stop] =>
+      pure (tagged "ok" [.list ((powerset (← asNats? s) (← asNat? start) (← asOptNat? stop)).map ofNats)])
+  | "d_separations", [g, k, all] =>
+      pure (exceptToSexp judgementsToSexp ((← parseGraph g).dSeparations (← asOptNat? k) (← asBool? all)))
+  | "get_ci", [g, topo, k, all] =>
+      pure (exceptToSexp judgementsToSexp
+        ((← parseGraph g).conditionalIndependencies (← asBool? topo) (← asOptNat? k) (← asBool? all)))
+  | "dsep_table", [g] =>
+      let G ← parseGraph g
+      pure (tagged "ok" [sepTable G.dSeparated G.vertexList])
+  | "sigma_table", [g] =>
+      let G ← parseGraph g
+      pure (tagged "ok" [sepTable G.sigmaSeparated G.vertexList])
+  | "sigma", [g, a, b, c] =>
+      pure (exceptToSexp boolSexp ((← parseGraph g).sigmaSeparated (← asNat? a) (← asNat? b) (← asNats? c)))
+  | "sigma_classes", [g] =>
+      let G ← parseGraph g
+      pure (exceptToSexp (fun (m : List (Nat × List Nat)) => .list (m.map fun p => .list [nat p.1, ofNats p.2]))
+        G.equivalenceClasses)
+  | "sigma_open", [g, p, c] =>
+      let G ← parseGraph g
+      let path ← asNats? p
+      let C ← asNats? c
+      pure (exceptToSexp boolSexp (G.equivalenceClasses >>= fun sg => G.isZSigmaOpen sg C path))
   | _, _ => none
 
 end Y0.Driver
